@@ -270,6 +270,41 @@ META6 = {
 }
 
 
+META7 = {
+    "C01": dict(file="bioscrape/types.pyx (MassActionPropensity.initialize: num_species = number of distinct reactants)", needs="order >= 3 with a repeat (or the class used directly), a volume mode, V != 1", caught_by=["C01"], first_run="caught (the same place as r3/C11)"),
+    "C02": dict(file="bioscrape/types.pyx (MinTerm.evaluate: `cdef float temp`)", needs="min(...) in a non-volume evaluation whose minimum is not a float32 number", caught_by=["C02"],
+                first_run="missed: C floats were treated as doubles (reals)", strengthened="engine: a C float local rounds concrete values to single precision and makes symbolic ones an uninterpreted rounding; replay at nearby generic points with a last-place tolerance"),
+    "C03": dict(file="bioscrape/simulator.pyx (calculate_deterministic_derivative skips species without reactions before zeroing their entry)", needs="a species with an all-zero net row and an output array with stale contents", caught_by=["C03"],
+                first_run="missed: output arrays were zero-initialised", strengthened="output arrays with arbitrary prior contents; a spectator species in the real-model job"),
+    "C04": dict(file="bioscrape/simulator.pyx (SafeModelCSimInterface.compute_propensities: count test on the continuous path)", needs="safe + deterministic, a reactant concentration below its stoichiometric coefficient", caught_by=["C04"], first_run="caught"),
+    "C05": dict(file="bioscrape/simulator.pyx (SafeModelCSimInterface.initialize_reaction_inputs reads the requirement from the wrong row)", needs="safe + stochastic, reactants that are not the leading species of the model", caught_by=["C05"], first_run="caught"),
+    "C06": dict(file="bioscrape/simulator.pyx (ModelCSimInterface.compute_stochastic_volume_propensities calls the deterministic volume form)", needs="volume + stochastic, plain interface, a repeated reactant", caught_by=["C06"], first_run="caught"),
+    "C07": dict(file="bioscrape/types.pyx (GeneralAssignmentRule.rule_volume_operation evaluates parameter targets without the volume)", needs="a volume mode, V != 1, a parameter-target rule that mentions volume, a species rule reading that parameter", caught_by=["C07"],
+                first_run="missed: no parameter-target rule mentioned the volume", strengthened="rule set with q = k*volume + t, B = q + A, k = A*volume (C09 / C07)"),
+    "C08": dict(file="bioscrape/simulator.pyx + vector.pxd (prep_deterministic_simulation: resize instead of clear + push_back)", needs="one interface prepared for a deterministic run more than once", caught_by=["C08"],
+                first_run="engine gap: std::vector::resize: exit 2", strengthened="engine: resize / reserve / front / back / pop_back / assign / swap on vectors (self-test); job: an interface prepared three times reports the same derivative"),
+    "C09": dict(file="bioscrape/types.pyx (AdditiveAssignmentRule accumulates into its target in place)", needs="an additive rule whose target is one of its own sources", caught_by=["C09"],
+                first_run="missed: no self-referential additive rule", strengthened="rule set of accumulators (C = C + A, B = A + B, A = B + A + A)"),
+    "C10": dict(file="bioscrape/simulator.pyx (DelaySSASimulator adds the delayed stoichiometry once per due slot, not once per queued firing)", needs="two firings of one reaction due in the same slot", caught_by=["C10"], first_run="caught"),
+    "C11": dict(file="bioscrape/simulator.pyx (ModelCSimInterface.compute_stochastic_volume_propensities delegates to compute_volume_propensities)", needs="volume + stochastic, plain interface, a repeated reactant", caught_by=["C11"], first_run="caught (the same place as r7/C06)"),
+    "C12": dict(file="bioscrape/sbmlutil.py (import_sbml_rules skips a second assignment rule for the same variable)", needs="two assignment / additive rules with one target", caught_by=["C12"],
+                first_run="missed: one rule per program", strengthened="programs with several rules, some with the same target"),
+    "C13": dict(file="bioscrape/sbmlutil.py (import_sbml_parameters skips parameters called t or volume)", needs="a global parameter with that id", caught_by=["C13"],
+                first_run="missed: fixed parameter names", strengthened="generator renames a global parameter to t / volume in a fifth of the documents"),
+    "C14": dict(file="bioscrape/types.pyx (BimolecularPropensity: stochastic homodimer rate halved)", needs="A + A, stochastic export, at least two molecules", caught_by=["C14"], first_run="caught"),
+    "C15": dict(file="bioscrape/pid_interfaces.py (uniform_prior: open instead of closed support)", needs="theta exactly on a bound of a uniform prior", caught_by=["C15"],
+                first_run="counterexample found, replay at an interior point only: exit 2", strengthened="replay evaluates the cost at both ends of the support as well"),
+    "C16": dict(file="bioscrape/pid_interfaces.py (uniform_prior renormalised to [max(lower, 0), upper] under 'positive')", needs="uniform prior with the flag and a negative lower bound", caught_by=["C16"], first_run="caught"),
+    "C17": dict(file="bioscrape/types.pyx (Model.__getstate__ rebuilds the reaction list from the initialised propensities)", needs="a model copied before it has been initialised since its last create_reaction", caught_by=["C17"],
+                first_run="counterexample found, not replayed: exit 2", strengthened="replay copies a model edited after its last initialisation"),
+    "C18": dict(file="bioscrape/simulator.pyx (ModelCSimInterface.compute_propensities calls the stochastic form)", needs="mass action with a repeated reactant", caught_by=["C18"],
+                first_run="missed: the real-model job had no repeated reactant", strengthened="dimerisation model 2A -> B with the schemes' exact expectations"),
+    "C19": dict(file="lineage/lineage.pyx (LineageVolumeSplitter.partition: `continue` skips the mother's share for exactly splitting perfect species)", needs="a perfect-mode species with an even count and a noise-free volume split", caught_by=["C19"], first_run="caught"),
+    "C20": dict(file="bioscrape/simulator.pyx (ArrayDelayQueue.get_next_reactions writes positive amounts only)", needs="one output buffer reused between reads", caught_by=["C20"],
+                first_run="missed: a fresh zeroed buffer per read", strengthened="reads into a buffer with arbitrary prior contents (harness) and one reused buffer (replay)"),
+}
+
+
 def main():
     results = {}
     rp = "/verif/seeded/results.json"
@@ -286,6 +321,8 @@ def main():
         rounds.append((META5, "/tmp/seed5_out", os.path.join(DST, "r5"), ("patch.diff", "demo.py", "notes.md")))
     if os.path.isdir("/tmp/seed6_out") or os.path.isdir(os.path.join(DST, "r6")):
         rounds.append((META6, "/tmp/seed6_out", os.path.join(DST, "r6"), ("patch.diff", "demo.py", "notes.md")))
+    if os.path.isdir("/tmp/seed7_out") or os.path.isdir(os.path.join(DST, "r7")):
+        rounds.append((META7, "/tmp/seed7_out", os.path.join(DST, "r7"), ("patch.diff", "demo.py", "notes.md")))
     for table, src_root, dst_root, files in rounds:
       for pid, m in sorted(table.items()):
         src = os.path.join(src_root, pid)
@@ -294,7 +331,7 @@ def main():
         for fn in files:
             if os.path.exists(os.path.join(src, fn)):
                 shutil.copy(os.path.join(src, fn), os.path.join(dst, fn))
-        key = pid if table is META else ("r2/" if table is META2 else "r3/" if table is META3 else "r4/" if table is META4 else "r5/" if table is META5 else "r6/") + pid
+        key = pid if table is META else ("r2/" if table is META2 else "r3/" if table is META3 else "r4/" if table is META4 else "r5/" if table is META5 else "r6/" if table is META6 else "r7/") + pid
         meta = dict(property=pid, changed=m["file"], needs_to_manifest=m["needs"], reported_by_checks=m["caught_by"],
                     first_run=m["first_run"], strengthened=m.get("strengthened", ""),
                     confirmed=["tools/try_seed.sh: (1) `git diff` of the sub-agent's worktree equals patch.diff; (2) the pinned suite run in that worktree: 54 passed; "
